@@ -30,6 +30,7 @@ import (
 	"verif.local/harness/hx"
 	"verif.local/vrt"
 	"verif.local/vrt/vctx"
+	"verif.local/vrt/vtime"
 )
 
 // ---------------------------------------------------------------- resources
@@ -118,6 +119,43 @@ type Cfg struct {
 	// GrabAtDestroy: as an environment choice, a third party puts its finalizer on an output right before
 	// the controller's first Destroy of it (i.e. after the controller's Teardown reported ready)
 	GrabAtDestroy bool
+	// LaggingOutCache: the runtime caches the output kind (options.WithCachedResource) and the watch that feeds
+	// that cache is slow - every batch after the bootstrap takes half a minute of virtual time to arrive, so the
+	// controller's cached reads of outputs are stale while it reconciles (seed c07i). Cached reads may lag; the
+	// finalizer protocol must not depend on them.
+	LaggingOutCache bool
+}
+
+// lagger delays the aggregated watch of the output kind.
+type lagger struct{ state.CoreState }
+
+func (l lagger) WatchKindAggregated(ctx context.Context, k resource.Kind, ch chan<- []state.Event, opts ...state.WatchKindOption) error {
+	if k.Type() != BType {
+		return l.CoreState.WatchKindAggregated(ctx, k, ch, opts...)
+	}
+	in := make(chan []state.Event)
+	if err := l.CoreState.WatchKindAggregated(ctx, k, in, opts...); err != nil {
+		return err
+	}
+	vrt.GoNamed("lagging-output-watch", func() {
+		first := true
+		for {
+			r1 := vrt.RecvCase((<-chan []state.Event)(in))
+			if vrt.Select(false, vrt.RecvCase(ctx.Done()), r1) == 0 {
+				return
+			}
+			if !first {
+				if vrt.Select(false, vrt.RecvCase(ctx.Done()), vrt.RecvCase(vtime.After(30*time.Second))) == 0 {
+					return
+				}
+			}
+			first = false
+			if vrt.Select(false, vrt.RecvCase(ctx.Done()), vrt.SendCase(ch).With(r1.Value)) == 0 {
+				return
+			}
+		}
+	})
+	return nil
 }
 
 // grabber wraps the core state for GrabAtDestroy.
@@ -397,7 +435,13 @@ func Body(c Cfg, prop string, x *explore.X) {
 		core = &grabber{CoreState: core}
 	}
 	st := state.WrapCore(core)
-	rt, err := runtime.NewRuntime(st, zap.NewNop(), options.WithMetrics(false))
+	rtOpts := []options.Option{options.WithMetrics(false)}
+	rtState := st
+	if c.LaggingOutCache {
+		rtOpts = append(rtOpts, options.WithCachedResource(hx.NS, BType))
+		rtState = state.WrapCore(lagger{core})
+	}
+	rt, err := runtime.NewRuntime(rtState, zap.NewNop(), rtOpts...)
 	if err != nil {
 		panic(err)
 	}
@@ -759,6 +803,13 @@ func Build(prop, tier string) []explore.Scenario {
 	for _, fl := range []string{"transform-fin", "qtransform"} {
 		cfgs = append(cfgs, Cfg{Name: fl + "/thirdparty-grabs-output-before-destroy", Flavour: fl, Script: []string{"create a", "tdd a", "outrmfin a"}, GrabAtDestroy: true, Bounds: []int{0}})
 	}
+	// the output kind is cached by the runtime and that cache lags behind the state
+	for _, fl := range []string{"transform-fin", "qtransform"} {
+		cfgs = append(cfgs,
+			Cfg{Name: fl + "/lagging-output-cache/tdd", Flavour: fl, Script: []string{"create a", "tdd a"}, LaggingOutCache: true, Bounds: []int{0}},
+			Cfg{Name: fl + "/lagging-output-cache/update-tdd-recreate", Flavour: fl, Script: []string{"create a", "update a", "tdd a", "create a"}, LaggingOutCache: true, Bounds: []int{0}},
+		)
+	}
 	// teardown-ignoring options of qtransform: inputs first seen while already tearing down
 	for _, fl := range []string{"qtransform-until", "qtransform-while"} {
 		cfgs = append(cfgs,
@@ -786,6 +837,8 @@ func Build(prop, tier string) []explore.Scenario {
 		sc.Bounds = []int{0, 1}
 		if thorough {
 			sc.Bounds = []int{0, 1, 2}
+		} else if c.LaggingOutCache {
+			sc.Bounds = []int{0}
 		}
 		cfgs = append(cfgs, sc)
 	}
@@ -802,6 +855,9 @@ func Build(prop, tier string) []explore.Scenario {
 	var out []explore.Scenario
 	for _, c := range cfgs {
 		c := c
+		if !thorough && !strings.Contains(c.Name, "/slow/") && c.LaggingOutCache {
+			continue // quick tier: the lagging-cache histories by the slow actor only
+		}
 		if !thorough && !strings.Contains(c.Name, "/slow/") {
 			// quick tier: the fast actor (whose schedule spaces are beyond any cap) only for the flavours with
 			// input finalizers; everything else by the slow actor
